@@ -826,6 +826,10 @@ func replay(c *core.Ctx) {
 		k.exportHistory(cs.Hist, cs.HistModes)
 	case "after-failed-write":
 		k.afterFailedWrite()
+	case "after-failed-read":
+		k.afterFailedRead()
+	case "load-after-replace":
+		k.loadAfterReplace()
 	case "save-over":
 		k.saveOver(cs.Recs)
 	case "value-bytes":
